@@ -230,6 +230,18 @@ Proof.
     destruct (_ <=? _)%nat; [cbn; lia|]. rewrite firstn_length, !skipn_length. lia.
 Qed.
 
+Lemma view_ci_addrs_ok cfg f v sp dp :
+  bytes_ok f = true -> view cfg f = Some v -> ci_addrs_ok (ci_set_ports (l3_ci f v) sp dp).
+Proof.
+  intros Hf Hv. destruct (view_sizes _ _ _ Hv) as (_ & Hsz).
+  assert (bytes_ok (v_src v) = true /\ bytes_ok (v_dst v) = true) as [Bs Bd].
+  { destruct (view_inv _ _ _ Hv) as (_ & _ & [H4 | H6]).
+    - destruct H4 as (_ & _ & _ & -> & -> & _). split; apply bytes_ok_slice, bytes_ok_skipn, Hf.
+    - destruct H6 as (_ & _ & _ & -> & -> & _). split; apply bytes_ok_slice, bytes_ok_skipn, Hf. }
+  unfold ci_addrs_ok, l3_ci. cbn [ci_set_ports ci_set_transport ci_set_ip ci_ip_src ci_ip_dst].
+  revert Hsz. destruct (v_v4 v); intros [Hs Hd]; cbn [addr_octets ip_octets]; repeat split; try assumption; lia.
+Qed.
+
 Theorem reply_ok E cfg clk tb f :
   env_ok E = true -> udp_replies_short E clk -> table_ok E tb -> frame_ok f ->
   exists tb' r evs, reply E cfg clk tb f = Ok (tb', r, evs) /\ table_ok E tb'.
@@ -259,7 +271,11 @@ Proof.
       destruct out as [x|]; [|eexists _, _; split; [reflexivity|exact Htb]].
       destruct (Hout x eq_refl) as (d & ci1 & Hpr & Hlx).
       assert (lenN d + 8 <= 65535) as Hb.
-      { eapply Hshort; [|apply bytes_ok_skipn; exact Hp|exact Hpr]. rewrite skipn_length. lia. }
+      { apply (Hshort (ci_set_ports (l3_ci f v) (u16_at 0 (v_l4 v)) (u16_at 2 (v_l4 v))) (skipn 8 (v_l4 v)) ci1 d).
+        - apply (view_ci_addrs_ok cfg f v _ _ Hf Hv).
+        - rewrite skipn_length. lia.
+        - apply bytes_ok_skipn. exact Hp.
+        - exact Hpr. }
       assert ((65535 <? lenN x) = false) as -> by lia.
       eexists _, _; split; [reflexivity|exact Htb].
     - destruct (v_proto v =? 58).
@@ -293,4 +309,35 @@ Proof.
   - inversion Hall as [|? ? [Hf Hs] Hall']; subst. cbn [fst snd] in *.
     destruct (reply_ok E cfg clk tb f HE Hs Htb Hf) as (tb1 & r & evs & Hr & Ht1).
     cbn [run]. rewrite Hr. apply IH; assumption.
+Qed.
+
+(* ---------- discharge of the length hypothesis (amplification bound) ---------- *)
+From MS Require Import Proofs.ReplyBytes.
+
+Theorem udp_replies_short_holds E clk :
+  env_small E = true -> (length (clk_date clk) <= 64)%nat -> udp_replies_short E clk.
+Proof.
+  intros HE Hclk ci p ci' d Hci Hlen Hp Hr.
+  destruct (proto_repl_udp_src _ _ _ _ _ _ Hr) as [_ Hsrc].
+  assert (ci_ok ci) as Hci' by exact Hci.
+  pose proof (payload_src_len E clk ci p (Some d) HE Hclk Hci' Hp Hsrc) as Hl.
+  cbn [pl_len] in Hl. unfold APP_MAX in Hl. unfold lenN. lia.
+Qed.
+
+Theorem reply_ok_closed E cfg clk tb f :
+  env_ok E = true -> env_small E = true -> (length (clk_date clk) <= 64)%nat ->
+  table_ok E tb -> frame_ok f ->
+  exists tb' r evs, reply E cfg clk tb f = Ok (tb', r, evs) /\ table_ok E tb'.
+Proof.
+  intros HE HS Hc. apply reply_ok; [exact HE|apply udp_replies_short_holds; assumption].
+Qed.
+
+Theorem run_ok_closed E cfg :
+  env_ok E = true -> env_small E = true ->
+  forall h, Forall (fun cf => frame_ok (snd cf) /\ (length (clk_date (fst cf)) <= 64)%nat) h ->
+    exists tb', run E cfg [] h = Ok tb' /\ table_ok E tb'.
+Proof.
+  intros HE HS h Hall. apply run_ok; [exact HE|apply table_ok_nil|].
+  eapply Forall_impl; [|exact Hall]. intros [clk f] [Hf Hc]. cbn [fst snd] in *.
+  split; [exact Hf|apply udp_replies_short_holds; assumption].
 Qed.
